@@ -138,6 +138,7 @@ ALPHABETS = {
     "links": "[]()a!",
     "containers": ">- \na1.",
     "leaf": "#=`~\n a-",
+    "autolink": "<>a:/",
 }
 
 
